@@ -896,4 +896,77 @@ def objFnPrim (f : ObjFn) (a : PrimArg) : PrimRes :=
   | .getOwnPropertyNames, _ => .emptyArray
   | _, _ => .typeError
 
+/-! ### assignment and read through a primitive base (cmpl_evaluate_expression.go:180-190, 268-278: the
+    member expression wraps the primitive with toObject and keeps it in `ref.primitive`;
+    type_reference.go:43-58 getValue / putValue then use the wrapper like any object)
+
+  Heap: O[0] = Object.prototype, O[1] = String/Number/Boolean.prototype (proto 0), and a fresh wrapper
+  (proto 1) at address 2 for every access; only name 0 (`tag`) matters. -/
+
+structure PrimObs where
+  defOut : Outcome            -- outcome of defining `tag` on the chosen prototype
+  calls : List Call           -- setter calls made by the assignment
+  got : Val                   -- value read back through a fresh wrapper
+  holder : NameObs            -- the prototype's own `tag` afterwards
+deriving DecidableEq, Repr
+
+def primHeap0 : MHeap := [⟨none, true, []⟩, ⟨some 0, true, []⟩]
+
+def primWrapper : MObj := ⟨some 1, true, []⟩
+
+def primAssign (level : Addr) (d : DescArg) (v : Val) : PrimObs :=
+  let r1 := step primHeap0 (.defn level 0 d)
+  let h1 := r1.1
+  let hw := h1 ++ [primWrapper]
+  let r2 := put hw 2 0 v false                       -- pr.base.put(name, value, false) on the wrapper
+  { defOut := r1.2.1
+    calls := r2.2.2
+    got := get hw 2 0
+    holder := match h1[level]? with
+      | some o => observeName h1 level o 0
+      | none => ⟨0, false, false, false, .none⟩ }
+
+/-! ### the order in which toPropertyDescriptor reads the fields of a descriptor object (property.go:123-195),
+    observable when the fields are getters.  Field codes: 0 enumerable, 1 configurable, 2 writable, 3 value, 4 get, 5 set -/
+
+def GS.isPresent : GS → Bool
+  | .absent => false
+  | _ => true
+
+def GS.isBad : GS → Bool
+  | .bad => true
+  | _ => false
+
+/-- (fields read in order, threw TypeError) -/
+def readOrder (d : Desc) : List Nat × Bool :=
+  let r0 := (if d.e.isSome then [0] else []) ++ (if d.c.isSome then [1] else []) ++ (if d.w.isSome then [2] else [])
+  let r1 := r0 ++ (if d.g.isPresent then [4] else [])
+  if d.g.isBad then (r1, true) else
+  let r2 := r1 ++ (if d.s.isPresent then [5] else [])
+  if d.s.isBad then (r2, true) else
+  let getterSetter := d.g.isPresent || d.s.isPresent
+  if getterSetter && d.w.isSome then (r2, true)
+  else if d.v.isSome then
+    (if getterSetter then (r2, true) else (r2 ++ [3], false))
+  else (r2, false)
+
+/-! ### objects that built-ins create while a prototype carries an accessor / read-only property of the
+    same name: every one of them creates its own properties with defineProperty / defineOwnProperty
+    (builtin_json.go builtinJSONParseWalk, cmpl_evaluate_expression.go object and array literals,
+    builtin_object.go defineProperties/create/fromPropertyDescriptor (property.go), type_arguments.go,
+    builtin_string.go match/split, builtin_array.go map/slice/concat, builtin_object.go keys, type_error.go),
+    so the polluted prototype is never consulted: (setter calls, own data property with the plain attributes) -/
+
+inductive Builtin
+  | json | literal | arrlit | defprops | create | args | smatch | gopd | keys | map | split | slice | concat | error
+deriving DecidableEq, Repr
+
+/-- expected own descriptor of the created property: value code and (w, e, c) -/
+def builtinCreates (b : Builtin) : List Call × DescObs :=
+  match b with
+  | .error => ([], .data 997 true false true)
+  | .gopd => ([], .data 4 true true true)
+  | .smatch | .split | .keys => ([], .data 997 true true true)
+  | _ => ([], .data 4 true true true)
+
 end OttoVerif.C07
